@@ -2,6 +2,8 @@ import RockitModel.Proofs.Bridge
 import RockitModel.Model.Initial
 import Mathlib.Data.List.Basic
 import Mathlib.Tactic.Ring
+import RockitModel.Proofs.Glue
+import RockitModel.Generated.Glue
 /-!
 # C10 — the solver starts from exactly the user's initial guess
 -/
@@ -85,5 +87,26 @@ and the decision point only (the guesses are not among its arguments) -/
 theorem no_effect_on_nlp (c : Ctx K) (g g' : Guesses K) : (fun (_ : Guesses K) => c.nlp) g = (fun _ => c.nlp) g' := rfl
 
 example : guessOf [(0, (1:ℚ)), (1, 2), (0, 3)] 0 = some 3 := by decide
+
+
+/-! ### guesses for algebraic symbols land in their own rows of the stacked algebraic vector -/
+section algebraic_rows
+
+/-- `get_ranges_dict`: the rows of the algebraic symbols are consecutive, disjoint and cover the stacked vector, each symbol getting as
+many rows as it has entries (vector-valued symbols included) -/
+theorem algebraic_rows_tile (sizes : List Nat) :
+    (rangesBy sizes).flatten = List.range sizes.sum ∧ (rangesBy sizes).map List.length = sizes :=
+  ⟨rangesBy_flatten sizes, rangesFrom_lengths 0 sizes⟩
+
+/-- the loop as written in `casadi_helpers.get_ranges_dict` and in `for_all_primitives` (regenerated from the source on every run) -/
+theorem source_glue_as_expected :
+    Rockit.Generated.glueSizes =
+      [("for_all_primitives", "stride", "nnz"), ("for_all_primitives", "slice", "nnz"),
+       ("get_ranges_dict", "range", "nnz"), ("get_ranges_dict", "stride", "nnz")] := by decide
+
+/-- non-vacuity: a 2-vector followed by a scalar: rows `[0,1]` and `[2]` -/
+example : rangesBy [2, 1] = [[0, 1], [2]] := by decide
+
+end algebraic_rows
 
 end Rockit.C10
